@@ -208,8 +208,58 @@ pub fn check_project(p: &Proj, stats: &mut Stats) -> Vec<Failure> {
     check_modules(&out.files, &returned, &tags, &case, stats)
 }
 
+/// two runs into the same output directory: the project with its emits, then without them (or
+/// the other way round). What the second run returns and writes has to be closed in itself:
+/// index.ts re-exports the files of *that* run, not whatever an earlier run left behind.
+pub fn check_rerun(p: &Proj, events_first: bool, stats: &mut Stats) -> Vec<Failure> {
+    let mut q = p.clone();
+    for c in &mut q.commands {
+        c.emits.clear();
+    }
+    let (first, second) = if events_first { (p, &q) } else { (&q, p) };
+    let files1 = first.render();
+    let files2 = second.render();
+    for (path, s) in files1.iter().chain(files2.iter()) {
+        must_parse(path, s);
+    }
+    stats.eval();
+    let has_events = p.commands.iter().any(|c| !c.emits.is_empty());
+    if has_events {
+        stats.nontrivial(&format!("{:?}{:?}{}", files1, p.cfg, events_first));
+    }
+    stats.label(if !has_events { "rerun=no_events_in_project" } else if events_first { "rerun=events_then_none" } else { "rerun=none_then_events" });
+    let dir = crate::tool::fresh_dir("c02r");
+    let proj = dir.join("proj");
+    let out = dir.join("out");
+    std::fs::create_dir_all(&proj).unwrap();
+    crate::tool::write_project(&proj, &files1);
+    let out1 = crate::tool::generate_at(&proj, &out, &p.cfg);
+    crate::tool::write_project(&proj, &files2);
+    let out2 = crate::tool::generate_at(&proj, &out, &p.cfg);
+    let _ = std::fs::remove_dir_all(&dir);
+    let case = json!({"config": p.cfg.to_json(), "events_first": events_first, "first_run_files": files1.iter().map(|(p, s)| json!({"path": p, "content": s})).collect::<Vec<_>>(), "second_run_files": files2.iter().map(|(p, s)| json!({"path": p, "content": s})).collect::<Vec<_>>()});
+    let mut tags: Vec<String> = p.features.iter().cloned().collect();
+    tags.push("sub=rerun".into());
+    tags.push(format!("events_first={}", events_first));
+    if out1.result.is_err() {
+        // a project the tool cannot generate is check_project's business
+        stats.label("rerun=first_run_failed");
+        return vec![];
+    }
+    let returned = match &out2.result {
+        Ok(r) => r.clone(),
+        Err(e) => return vec![Failure::new(if out2.panic.is_some() { "panic" } else { "tool_error" }).tags(tags).observed(e.clone()).expected("the second run into the same directory succeeds").case(case)],
+    };
+    // only what the second run wrote: a file an earlier run left behind is not part of its output
+    let mut files: std::collections::BTreeMap<String, String> = out2.files.iter().filter(|(n, _)| returned.contains(n)).map(|(n, s)| (n.clone(), s.clone())).collect();
+    if let Some(ix) = out2.files.get("index.ts") {
+        files.insert("index.ts".into(), ix.clone());
+    }
+    check_modules(&files, &returned, &tags, &case, stats)
+}
+
 pub fn run(ctx: &Ctx) {
-    ctx.set_rule("whole projects as in C01 (every named type is a project serde type or mapped; since the syntax defects were repaired no input class is steered around any more); every reference in types.ts / commands.ts / events.ts is resolved against per-module declaration tables in type space and value space, `types.X` against the exports of types.ts, index.ts against the list of files the run returned. evaluation = one generation run; non-trivial = a project type below a constructor at a parameter / return / channel site");
+    ctx.set_rule("whole projects as in C01 (every named type is a project serde type or mapped; since the syntax defects were repaired no input class is steered around any more); every reference in types.ts / commands.ts / events.ts is resolved against per-module declaration tables in type space and value space, `types.X` against the exports of types.ts, index.ts against the list of files the run returned; sub-check c02.rerun: the same project with and without its emit calls generated one after the other into one output directory (both orders), the files the second run returned resolved the same way. evaluation = one generation run; non-trivial = a project type below a constructor at a parameter / return / channel site");
     ctx.set_exhaustive(false);
     ctx.assume("resolution follows the harness's parser and scope model for the emitted fragment");
     let cases = ctx.tier.pick(2500, 300000);
@@ -218,6 +268,13 @@ pub fn run(ctx: &Ctx) {
         let p = random_project(tape, false, &mut avoided);
         stats.excluded_known += avoided;
         check_project(&p, stats)
+    });
+    let cases = ctx.tier.pick(800, 60000);
+    ctx.search("c02.rerun", cases, 400, |tape, stats| {
+        let mut avoided = 0;
+        let p = random_project(tape, false, &mut avoided);
+        let events_first = tape.pick(3) != 2;
+        check_rerun(&p, events_first, stats)
     });
     // the position x site grid of the design: every wrap at every site with a struct and an enum
     let mut keys = vec![];
@@ -262,6 +319,13 @@ pub fn replay(check: &str, input: &Value, stats: &mut Stats) -> Option<Vec<Failu
             let mut avoided = 0;
             let p = random_project(&mut tape, false, &mut avoided);
             Some(check_project(&p, stats))
+        }
+        "c02.rerun" => {
+            let mut tape = Tape::new(super::tape_of(input));
+            let mut avoided = 0;
+            let p = random_project(&mut tape, false, &mut avoided);
+            let events_first = tape.pick(3) != 2;
+            Some(check_rerun(&p, events_first, stats))
         }
         "c02.files" => {
             // explicit sources: [{path, content}], mode
